@@ -188,6 +188,9 @@ func init() {
 			return strings.ToUpper(concStr(args[0], "strings.ToUpper"))
 		},
 		"strings.TrimSpace": func(i *interpreter, fr *frame, fn *ssa.Function, args []value) value {
+			if a, ok := args[0].(symstr); ok {
+				return i.symTrimSpace(a)
+			}
 			return strings.TrimSpace(concStr(args[0], "strings.TrimSpace"))
 		},
 		"strings.Contains": func(i *interpreter, fr *frame, fn *ssa.Function, args []value) value {
